@@ -136,6 +136,8 @@ Expected(w) ==
     [] w = "assign_strtable" -> {"ValueError", "TypeError", "KeyError"}
     [] w \in {"resize_huge", "resize_wrap"} -> {"OutOfMemoryError"}          \* a reservation that cannot be had: refused, nothing changes
     [] w \in {"refuse_push", "refuse_pushat", "refuse_set"} -> {"ValueError"}     \* the element type's own Assign refuses the value
+    [] w \in {"stack_push", "stack_pushat", "stack_pop", "stack_popat", "stack_popatn", "stack_rem", "stack_resize", "stack_concat", "stack_assign"}
+         -> {"ValueError"}                                                     \* a Tuple that is a stack object cannot reallocate its items: refused, items untouched
     [] OTHER -> {}
 Bad == IsEv("bad") /\ Fails(Expected(E.what))
 
